@@ -118,7 +118,9 @@ def cycles(x0, fmt, root, tag, first_allow, viols, counters):
             viols.append(_v(f"{fmt}:drift:{attr}", f"{tag}: generation 2 differs from generation 1 at {path0}: {dd[0][1]} -> {dd[0][2]} "
                             f"({len(dd)} differences)"))
         try:
-            iodata.dump_one(x2, paths[2], fmt=ef)
+            # the third save happens later than the second: on another day, in another year (the clock the library can see is moved)
+            with shifted_clock(400 * 86400.0 + 3723.0):
+                iodata.dump_one(x2, paths[2], fmt=ef)
         except Exception as exc:
             viols.append(_v(f"{fmt}:third-save-fails", f"{tag}: generation-2 object cannot be saved: {type(exc).__name__}: {exc}"))
             return True
@@ -133,6 +135,62 @@ def cycles(x0, fmt, root, tag, first_allow, viols, counters):
         viols.append(_v(f"{fmt}:bytes-drift", f"{tag}: third-generation file differs from the second at line {k + 1}: "
                         f"{l2[k][:80] if k < len(l2) else b'<end>'} -> {l3[k][:80] if k < len(l3) else b'<end>'}"))
     return True
+
+
+class shifted_clock:
+    """Moves the wall clock seen through the `time` module (time, localtime, gmtime, strftime, ctime, asctime) and through
+    datetime.datetime.now / utcnow / today / date.today by `offset` seconds while active."""
+
+    def __init__(self, offset):
+        self.offset = offset
+
+    def __enter__(self):
+        import datetime
+        import time
+
+        off = self.offset
+        self.saved = {n: getattr(time, n) for n in ("time", "localtime", "gmtime", "strftime", "ctime", "asctime", "time_ns")}
+        real = dict(self.saved)
+        time.time = lambda: real["time"]() + off
+        time.time_ns = lambda: real["time_ns"]() + int(off * 1e9)
+        time.localtime = lambda secs=None: real["localtime"](real["time"]() + off if secs is None else secs)
+        time.gmtime = lambda secs=None: real["gmtime"](real["time"]() + off if secs is None else secs)
+        time.strftime = lambda fmt, t=None: real["strftime"](fmt, real["localtime"](real["time"]() + off) if t is None else t)
+        time.ctime = lambda secs=None: real["ctime"](real["time"]() + off if secs is None else secs)
+        time.asctime = lambda t=None: real["asctime"](real["localtime"](real["time"]() + off) if t is None else t)
+        self.dt = (datetime.datetime, datetime.date)
+        delta = datetime.timedelta(seconds=off)
+
+        class ShiftedDateTime(datetime.datetime):
+            @classmethod
+            def now(cls, tz=None):
+                return real_dt.now(tz) + delta
+
+            @classmethod
+            def utcnow(cls):
+                return real_dt.utcnow() + delta
+
+            @classmethod
+            def today(cls):
+                return real_dt.today() + delta
+
+        class ShiftedDate(datetime.date):
+            @classmethod
+            def today(cls):
+                return real_date.today() + delta
+
+        real_dt, real_date = self.dt
+        datetime.datetime, datetime.date = ShiftedDateTime, ShiftedDate
+        return self
+
+    def __exit__(self, *exc):
+        import datetime
+        import time
+
+        for n, f in self.saved.items():
+            setattr(time, n, f)
+        datetime.datetime, datetime.date = self.dt
+        return False
 
 
 def run_case(case):
